@@ -71,12 +71,15 @@ impl Composable for Probe {}
 impl Probe {
     fn fire<R: Rng + ?Sized>(&self, rng: &mut R) -> Result<u64, PErr> {
         self.calls.fetch_add(1, Ordering::Relaxed);
+        // three kinds of typed draws: a u32, a u64 and a short byte request
         let a = rng.next_u32();
         let b = rng.next_u64();
+        let mut bytes = [0u8; 11];
+        rng.fill_bytes(&mut bytes[..3 + (a % 9) as usize]);
         if self.fail {
             Err(PErr(7))
         } else {
-            Ok(mix(u64::from(a), b))
+            Ok(mix(mix(u64::from(a), b), u64::from_le_bytes(bytes[..8].try_into().unwrap_or([0; 8]))))
         }
     }
 }
